@@ -51,6 +51,22 @@ CLAIMED["C19"] = {
     "note": "The halving loop is libstdc++'s, modelled not regenerated: the tie is the counter comparison on the implementation. Constants added by callers (equivalence tests) are bounded by inspection and by the counters.",
     "design": "5 C19"}
 
+CLAIMED["C03"] = {
+    "technique": "Coq proof over an executable FlatSet model (sortedness invariant by induction over operation histories, bulk insertion = repeated insertion, lookups = linear specification, merges) for every strict weak order + lock-step correspondence of the extracted model + real std::set oracle",
+    "text": "Theorems of coq/Properties_C03.v, for EVERY comparator that is a strict weak order (instances proved for less/greater/coarse/stateful): C03_sorted_every_history (after any history over the driver's alphabet every FlatSet is strictly sorted under the comparator it holds, hence duplicate free), C03_bulk_is_repeated_insertion (append + stable_sort + inplace_merge + unique = inserting the range one by one, first of equivalent elements wins - unbounded lengths), C03_find_is_scan / C03_lower_bound_is_count (binary-search lookups = linear specification), C03_insert_membership, C03_merge, C03_merge_other_comparator. Tie: the extracted model runs in lock-step with the real FlatSet (every result - booleans, counts, bounds, positions, node ownership -, size and contents in iteration order) over 8 configurations (amc::vector / SmallVector / FixedCapacityVector / std::vector underneath; less, greater, transparent, coarse and stateful comparators; instrumented elements), insert_hint additionally regenerated from the source (C12); a real std::set with the same comparator object runs side by side as direct oracle.",
+    "note": "std::stable_sort / inplace_merge / unique / lower_bound are modelled by implementations meeting the standard's specification, not verified; heterogeneous lookup and merge_other are covered by oracle + (merge_other) theorem but excluded from the lock-step comparison; comparison operators are executable in the model and compared, not separately proved.",
+    "design": "5 C03"}
+CLAIMED["C04"] = {
+    "technique": "Coq proof over an executable SmallSet model (invariant over histories for every N; abstraction to std::set as the fold of the specification's insert; insertion through the inline/large transition; lookups) + exhaustive small-scope lock-step correspondence + real std::set oracle",
+    "text": "Theorems of coq/Properties_C04.v for every strict weak order and every N: C04_invariant_every_history (backing set strictly sorted, inline vector free of equivalent elements and at most N long, never both non-empty, after any history incl. growth past N, draining to empty and refilling, merges), C04_insert_is_set_insert (inline, at the N boundary, large: abstraction' = std::set insert of abstraction; inserted flag = absence; returned position holds an equivalent element), C04_insert_range, C04_find_is_membership. Tie: every reachable (content, state) of a small key domain x every operation and argument (quick; thorough also every pair for two-set operations) plus random histories and merge-heavy histories run in lock-step with the real SmallSet on 8 configurations (N in 1..4, std::set and FlatSet backing, four comparators, instrumented elements), std::set side by side.",
+    "note": "Iteration order of an inline SmallSet is unspecified by the property; the model follows the implementation's insertion order and the oracle compares as a set. Comparison operators (sorted pointer snapshot) are executable in the model and compared, not separately proved.",
+    "design": "5 C04"}
+CLAIMED["C11"] = {
+    "technique": "Coq proof over the SmallSet model (walk visits size() distinct elements; erase(position) returns a valid position incl. the large->inline fallback; the erase-while-iterating loop terminates with the right result, by an explicit loop function and its closed form) + exhaustive lock-step correspondence + iterator oracles on the implementation",
+    "text": "Theorems of coq/Properties_C11.v for every N: C11_walk (in either state the walk has size() elements, none twice, exactly the abstract set), C11_erase_returns_valid_position (same index = the following element, end() exactly when nothing follows, also when the erasure empties the backing set and begin()/end() flip to the inline vector), C11_erase_loop_terminates (the standard loop performs size() iterations, erases exactly the selected elements, keeps the others, in any state and across the transition), with C04's insert/find theorems for the returned iterators of insert/emplace/find. Tie: exhaustive (content, state) x iterator-taking/returning operation at every position on 8 SmallSet configurations, compared step by step with the model; the driver checks == end(), dereferenced values, walk counts and loop termination (bad_variant_access is a verdict).",
+    "note": "Iterators are modelled as positions in the active container; the std::variant alternative mismatch itself is observed by the driver (returned iterator neither end() nor an element), not modelled.",
+    "design": "5 C11"}
+
 REASONS = {}
 
 
